@@ -80,7 +80,7 @@ theorem quiet_ignored_under_json_except_replace :
 /-! ### the document is a member of the declared type -/
 
 /-- The document of every command is a member of every type a wrapper declares for it, in every scenario, except:
-    `history`, `status` (and, see `C19_witness_non_utf8_plan_null`, a plan with a path that is not valid UTF-8). -/
+    `history`, `status`. -/
 theorem conforms_bindings_partial :
     (Cmd.all.all fun c => (docScenarios c).all fun s => shapeMismatch c s.1 s.2 || conformsCmd c s.1 s.2) = true :=
   Part.conforms_bindings_partial
@@ -103,12 +103,13 @@ theorem search_mode_members_optional :
     ∧ ((docScenarios .search).all fun s => conformsCmd .search s.1 s.2) = true :=
   Part.search_mode_members_optional
 
-/-- WITNESS non_utf8_plan_null: `PlanResult` / `RenameResult::format_json` render `plan` through
-    `serde_json::to_value(&self.plan).unwrap_or(Value::Null)`; when a planned path is not valid UTF-8 the member is `null`
-    (status 0, `"success": true`), which is not the `Plan` that cliService.search / createPlan declare (they throw
-    "missing plan data"); cliService.rename only reads `plan_id` and is unaffected.  `conforms_bindings_partial` above
-    is about the scenarios in which every path is valid UTF-8 (`serFails = false`). -/
-theorem C19_witness_non_utf8_plan_null :
+/-- (about `format_json` in isolation; formerly WITNESS non_utf8_plan_null, repaired by 56d4ab2) `PlanResult` /
+    `RenameResult::format_json` render `plan` through `serde_json::to_value(&self.plan).unwrap_or(Value::Null)`: the member
+    is a `Plan` unless the plan cannot be serialised (a path that is not valid UTF-8), and only then `null`, which is not
+    what cliService.search / createPlan declare.  Since 56d4ab2 the planner refuses such a path before any plan exists
+    (the grid cells `*/nonutf8*` are ordinary failing rows), so no command reaches the `serFails` branch;
+    `conforms_bindings_partial` above is about `serFails = false`. -/
+theorem plan_member_null_only_if_unserialisable :
     conformsCmdIn .search { docCtxOf .search false false with serFails := true } = false
     ∧ conformsCmdIn .plan { docCtxOf .plan false false with serFails := true } = false
     ∧ conformsCmdIn .rename { docCtxOf .rename false false with serFails := true } = true
@@ -116,7 +117,7 @@ theorem C19_witness_non_utf8_plan_null :
         (.ref n!"Plan") (.fallible (.ref n!"Plan")) = false
     ∧ conformsGen { replaceEmpty := false, noMatches := false, noRenames := false }
         (.ref n!"Plan") (.fallible (.ref n!"Plan")) = true :=
-  Part.C19_witness_non_utf8_plan_null
+  Part.plan_member_null_only_if_unserialisable
 
 /-- WITNESS history_shape_mismatch: `history --output json` prints `{"entries":[HistoryItem…]}`; `cliService.history`
     returns it as `HistoryEntry[]` (an object is not an array; a `HistoryItem` has no `created_at`). -/
